@@ -396,6 +396,8 @@ class Calls:
     def call_function(self, fi: FuncInfo, args: List[V], kwargs: Dict[str, V], node: Any, fr: Frame,
                       closure: Optional[Frame] = None) -> V:
         env = self.bind_args(fi, args, kwargs, node, fr)
+        if any(fi.qualname.startswith(p) for p in getattr(self.unit, "pure", ())):
+            return self.call_uninterpreted(fi, env, node, fr)
         if fi.module.name.startswith("specs.") and fi.cls is None:
             conc = self.all_concrete(list(env.values()))
             if conc is not None:
